@@ -188,7 +188,10 @@ def derive_h(case, vseed, identity=False):
             dt = {'ev': 2 * rng.randrange(case['nev'] + 1), 'src': rng.choice(ids), 'dst': rng.choice(ids),
                   'at': rng.randint(0, len(case['transitions']))}
             dt['wild'] = dt['ev'] == 2 * case['nev'] and rng.random() < 0.5
-            if (dt['ev'], dt['src'], dt['dst']) not in taken:
+            # one detour per (trigger, source): a removal by source alone takes every transition of that source,
+            # and removing from a trigger that is already gone raises (as on flat machines)
+            if (dt['ev'], dt['src'], dt['dst']) not in taken and not any(
+                    (d['ev'], d['src']) == (dt['ev'], dt['src']) for d in detours):
                 taken.add((dt['ev'], dt['src'], dt['dst']))
                 detours.append(dt)
     deferring = any(p['defer_from'] is not None for p in plan.values())
